@@ -406,7 +406,7 @@ def collect_samples(run, trace):
             except Exception:
                 continue
             ev = e.get('ev')
-            if ev == 'reset':
+            if ev in ('reset', 'greset', 'xreset'):
                 if cur and len(run.samples) < 3:
                     run.samples.append(cur)
                 cur = [e] if len(run.samples) < 3 else []
@@ -415,6 +415,8 @@ def collect_samples(run, trace):
                 cur.append(e)
             if nontrivial(e):
                 run.distinct.add(hashlib.md5(line.encode()).digest())
+    if cur and len(run.samples) < 3:
+        run.samples.append(cur)
 
 
 def nontrivial(e):
@@ -422,7 +424,7 @@ def nontrivial(e):
     if ev == 'serve':
         r = e.get('r', {})
         return r.get('kind') not in ('404', '', None) or r.get('panic') not in ('none', None)
-    return ev not in ('reset',)
+    return ev not in ('reset', 'greset', 'xreset')
 
 
 # ------------------------------------------------------------------ confirmation by replay
